@@ -452,7 +452,22 @@ static inline double cmb_random_std_beta(const double a, const double b)
      * Marsaglia-Tsang sampler behind cmb_random_std_gamma() cannot */
     const double x = cmb_random_gamma(a, 1.0);
     const double y = cmb_random_gamma(b, 1.0);
-    const double r = x / (x + y);
+    double r;
+    if (x + y > 0.0) {
+        r = x / (x + y);
+    }
+    else {
+        /*
+         * Both gamma variates underflowed to 0.0 (tiny shape parameters), the
+         * ratio would be 0/0. Conditional on being below the underflow
+         * threshold t they are distributed as t * U^(1/shape) (the gamma
+         * density is proportional to x^(shape - 1) there), t cancels in the
+         * ratio: decide it in log space from two fresh uniform variates.
+         */
+        const double lx = log(cmb_random()) / a;
+        const double ly = log(cmb_random()) / b;
+        r = 1.0 / (1.0 + exp(ly - lx));
+    }
 
     cmb_assert_debug((r >= 0.0) && (r <= 1.0));
     return r;
